@@ -46,6 +46,17 @@ pub uninterp spec fn un_le64(b: Seq<u8>) -> u64;
 pub uninterp spec fn un_le128(b: Seq<u8>) -> u128;
 /// `let mut bytes = &slice[..]; bytes.read_uN::<LittleEndian>()` / `read_u8()`: decodes the leading bytes (Err when too short)
 #[verifier::external_body] fn read_u8_of(s: &Slice) -> (r: Result<u8, Error>) ensures r is Ok ==> s@.len() >= 1 && r->Ok_0 == s@[0] { unimplemented!() }
+/// `let mut bytes = &slice[..]; bytes.read_uN::<LittleEndian>()` (byteorder on an in-memory reader): the first N bytes, little endian.
+/// One read per reader (the read consumes it); values of different widths are unrelated uninterpreted decodings
+pub uninterp spec fn un_le32(b: Seq<u8>) -> u32;
+pub uninterp spec fn un_le16(b: Seq<u8>) -> u16;
+struct SliceRd<'a> { s: &'a Slice }
+fn slice_rd<'a>(s: &'a Slice) -> (r: SliceRd<'a>) ensures r.s == s { SliceRd { s } }
+impl<'a> SliceRd<'a> {
+    #[verifier::external_body] fn rd_u64_le(self) -> (r: Result<u64, Error>) ensures r is Ok ==> self.s@.len() >= 8 && r->Ok_0 == un_le64(self.s@.subrange(0, 8)) { unimplemented!() }
+    #[verifier::external_body] fn rd_u32_le(self) -> (r: Result<u32, Error>) ensures r is Ok ==> self.s@.len() >= 4 && r->Ok_0 == un_le32(self.s@.subrange(0, 4)) { unimplemented!() }
+    #[verifier::external_body] fn rd_u16_le(self) -> (r: Result<u16, Error>) ensures r is Ok ==> self.s@.len() >= 2 && r->Ok_0 == un_le16(self.s@.subrange(0, 2)) { unimplemented!() }
+}
 #[verifier::external_body] fn read_u64_le_of(s: &Slice) -> (r: Result<u64, Error>) ensures r is Ok ==> s@.len() >= 8 && r->Ok_0 == un_le64(s@.subrange(0, 8)) { unimplemented!() }
 #[verifier::external_body] fn read_u128_le_of(s: &Slice) -> (r: Result<u128, Error>) ensures r is Ok ==> s@.len() >= 16 && r->Ok_0 == un_le128(s@.subrange(0, 16)) { unimplemented!() }
 /// `assert_eq!(expected, &*value, ..)`: execution continues only if the value is exactly that one byte
@@ -177,7 +188,10 @@ impl ParsedMeta {
 //@ SUBST `assert_eq ! ( & [ u8 :: from ( ChecksumType :: Xxh3 ) ] , & * hash_type , $1 ) ;` ==> `check_is_byte(&hash_type, U8OfChecksumType::from(ChecksumType::Xxh3));`
 //@ SUBST `assert_eq ! ( read_u8 ! ( block , N_RESTART_INTERVAL_INDEX ) , 1 , $1 ) ;` ==> `rt_check(read_u8!(block, N_RESTART_INTERVAL_INDEX) == 1);`
 //@ SUBST `let mut bytes = & bytes . value [ .. ] ; bytes . read_u128 :: < LittleEndian > ( ) ? . into ( )` ==> `Timestamp::from_u128(read_u128_le_of(&bytes.value)?)`
-//@ SUBST `let mut bytes = & bytes [ .. ] ; bytes . read_u64 :: < LittleEndian > ( ) ?` ==> `read_u64_le_of(&bytes)?`
+//@ SUBST `let mut bytes = & bytes [ .. ] ;` ==> `let bytes = slice_rd(&bytes);`
+//@ SUBST `bytes . read_u64 :: < LittleEndian > ( )` ==> `bytes.rd_u64_le()`
+//@ SUBST `bytes . read_u32 :: < LittleEndian > ( )` ==> `bytes.rd_u32_le()`
+//@ SUBST `bytes . read_u16 :: < LittleEndian > ( )` ==> `bytes.rd_u16_le()`
 //@ SUBST `let mut bytes = & bytes . value [ .. ] ; CompressionType :: decode_from ( & mut bytes ) ?` ==> `CompressionType::decode_value(&bytes.value)?`
     fn load_with_handle(file: &File, handle: &BlockHandle) -> /*+*/(r:/*-*/ Result<Self, Error>/*+*/)
         ensures r is Ok ==> ({
@@ -267,7 +281,8 @@ impl ParsedMeta {
                     .point_read(N_SEQNO_MIN, SeqNo::MAX)
                     .expect_rt()
                     .value;
-                read_u64_le_of(&bytes)?
+                let bytes = slice_rd(&bytes);
+                bytes.rd_u64_le()?
             };
 
             let max = {
@@ -275,7 +290,8 @@ impl ParsedMeta {
                     .point_read(N_SEQNO_MAX, SeqNo::MAX)
                     .expect_rt()
                     .value;
-                read_u64_le_of(&bytes)?
+                let bytes = slice_rd(&bytes);
+                bytes.rd_u64_le()?
             };
 
             (min, max)
